@@ -303,6 +303,8 @@ int main(void) {
         if ((w[0] != 'k' && w[0] != 'e') || envt >= MAXENV) { printf("bad-op\n"); break; }
         env[envt].ok = w[0] == 'k'; env[envt].v = atol(w + 1); envt++;
       }
+    } else if (!strcmp(line, "envclear")) {
+      envh = envt;
     } else if (!strncmp(line, "script ", 7)) {
       unsigned k; int pos;
       if (sscanf(line + 7, "%u %n", &k, &pos) >= 1 && k < MAXK) { free(script[k]); script[k] = strdup(line + 7 + pos); }
